@@ -18,7 +18,8 @@ CHECKS = {
              "nested structs with copy semantics, char, sum values (?T, enums, error unions) with "
              "switch / #unwrap / #is_variant / .try (nil and errors propagate), slices (reference "
              "semantics, .len, bounds, copying back), function values (globals and local lambdas "
-             "called through variables and parameters), pointers (^ / ^mut to variables, fields and elements; stores and "
+             "called through variables and parameters), vararg parameters (also empty and in the "
+             "middle of the parameter list), global constants, pointers (^ / ^mut to variables, fields and elements; stores and "
              "reads through them with and without auto-dereference; pointer parameters that write "
              "into the frames of callers, also several frames down), functions, if / while / loop, "
              "labeled blocks "
@@ -31,7 +32,7 @@ CHECKS = {
              "output byte or status is rejected (binding demonstration in DESIGN.md).",
         note="quick: 360 programs + 40 ending in an out-of-range index; thorough: 5 000 + 500. "
              "Not in the fragment yet: pointers stored inside aggregates or returned from "
-             "functions, varargs, floats (C08), strings. Programs "
+             "functions, floats (C08), strings. Programs "
              "whose evaluation exceeds the fuel of 400 loop iterations / calls are not judged. "
              "Trusted: TLC, the generator's determinacy discipline (pure functions inside "
              "expressions, literal shift amounts, no division), the renderer, gcc as linker.",
